@@ -2,7 +2,10 @@
 (***************************************************************************)
 (* Trace validation of MGDA calls (C04) against MinNorm.tla.               *)
 (* One episode = MGDA(epsilon = 0, max_iters = K) on an integer matrix J   *)
-(* (m <= 3), with what the harness observed of A(J), rounded OUTWARDS to   *)
+(* (m <= 3; K anywhere on the ladder of DualCone.tla, up to 60000; epsz =  *)
+(* the presentation of epsilon = 0 the call was made with, "float" or      *)
+(* "int": the verdict does not depend on it),                              *)
+(* with what the harness observed of A(J), rounded OUTWARDS to             *)
 (* fixed point so that every test below is implied by the real-number      *)
 (* statement (no false alarm from rounding):                               *)
 (*   a2lo, a2hi : floor / ceil of |A(J)|^2 * 1024                          *)
@@ -35,7 +38,8 @@ Verdict(e) ==
         rate == CeilDiv(8 * (L + 1) * 1024, e.K + 2)
         \* gap upper bound in units of 1/64
         g64  == CeilDiv(IF e.a2hi > MnLo(mn) THEN e.a2hi - MnLo(mn) ELSE 0, 16)
-    IN  IF ~MinNormWellDefined(G) THEN "model_min_norm_not_well_defined"
+    IN  IF e.epsz \notin {"float", "int"} \/ e.K < 1 THEN "model_malformed_configuration"
+        ELSE IF ~MinNormWellDefined(G) THEN "model_min_norm_not_well_defined"
         ELSE IF e.a2hi < MnLo(mn) THEN "output_shorter_than_the_min_norm_point_of_the_hull"
         ELSE IF e.a2lo - MnHi(mn) > rate THEN "suboptimality_exceeds_8_s2_over_max_iters_plus_2"
         ELSE IF \E i \in DOMAIN e.phi : e.phi[i] < 0 /\ e.phi[i] * e.phi[i] > (L + 1) * g64 * 64
